@@ -10,42 +10,45 @@ Open Scope N_scope.
 Definition is_dyn (name : str) : bool :=
   f_eq name "set_variable" || f_eq name "unset_variable" || f_eq name "subdir".
 
-(* [safe x n]: the name x is not assigned anywhere inside n (by =, += or as a foreach variable)
+(* the calls whose written names cannot be read off the program text *)
+Definition is_dyn2 (name : str) : bool := f_eq name "set_variable" || f_eq name "unset_variable".
+
+(* [safe dyn x n] (dyn: the excluded calls): the name x is not assigned anywhere inside n (by =, += or as a foreach variable)
    and n contains no call of set_variable / unset_variable / subdir *)
-Fixpoint safe (x : str) (n : node) : bool :=
+Fixpoint safe (dyn : str -> bool) (x : str) (n : node) : bool :=
   match n with
   | NEmpty _ | NBool _ | NId _ | NNum _ | NStr _ | NContinue _ _ | NBreak _ _ => true
-  | NParen _ e _ => safe x e
-  | NArray _ a _ _ | NDict _ a _ _ => safe_args x a
-  | NFunc name _ a _ _ => negb (is_dyn (ttext name)) && safe_args x a
-  | NMethod obj _ _ _ a _ _ => safe x obj && safe_args x a
-  | NIndex o _ i _ => safe x o && safe x i
-  | NNot _ _ e | NUMinus _ _ e => safe x e
-  | NArith l _ r | NCmp l _ r | NAnd l _ r | NOr l _ r | NNotIn l _ _ r => safe x l && safe x r
-  | NTernary c _ t _ f => safe x c && safe x t && safe x f
-  | NAssign name _ v | NPlusAssign name _ v => negb (str_eqb x (ttext name)) && safe x v
-  | NIf i _ => safe_ifs x i
-  | NIfElse i _ _ b _ => safe_ifs x i && safe_block x b
+  | NParen _ e _ => safe dyn x e
+  | NArray _ a _ _ | NDict _ a _ _ => safe_args dyn x a
+  | NFunc name _ a _ _ => negb (dyn (ttext name)) && safe_args dyn x a
+  | NMethod obj _ _ _ a _ _ => safe dyn x obj && safe_args dyn x a
+  | NIndex o _ i _ => safe dyn x o && safe dyn x i
+  | NNot _ _ e | NUMinus _ _ e => safe dyn x e
+  | NArith l _ r | NCmp l _ r | NAnd l _ r | NOr l _ r | NNotIn l _ _ r => safe dyn x l && safe dyn x r
+  | NTernary c _ t _ f => safe dyn x c && safe dyn x t && safe dyn x f
+  | NAssign name _ v | NPlusAssign name _ v => negb (str_eqb x (ttext name)) && safe dyn x v
+  | NIf i _ => safe_ifs dyn x i
+  | NIfElse i _ _ b _ => safe_ifs dyn x i && safe_block dyn x b
   | NForeach _ v1 cv2 _ items b _ =>
       negb (str_eqb x (ttext v1)) &&
       match cv2 with Some (_, v2) => negb (str_eqb x (ttext v2)) | None => true end &&
-      safe x items && safe_block x b
+      safe dyn x items && safe_block dyn x b
   end
-with safe_args (x : str) (a : args) : bool :=
+with safe_args (dyn : str -> bool) (x : str) (a : args) : bool :=
   match a with
   | ANil => true
-  | APos n r => safe x n && safe_args x r
-  | AKw k _ v r => safe x k && safe x v && safe_args x r
+  | APos n r => safe dyn x n && safe_args dyn x r
+  | AKw k _ v r => safe dyn x k && safe dyn x v && safe_args dyn x r
   end
-with safe_block (x : str) (b : block) : bool :=
+with safe_block (dyn : str -> bool) (x : str) (b : block) : bool :=
   match b with
   | BNil => true
-  | BLine n _ r => safe x n && safe_block x r
+  | BLine n _ r => safe dyn x n && safe_block dyn x r
   end
-with safe_ifs (x : str) (i : ifs) : bool :=
+with safe_ifs (dyn : str -> bool) (x : str) (i : ifs) : bool :=
   match i with
   | INil => true
-  | ICons _ c _ b r => safe x c && safe_block x b && safe_ifs x r
+  | ICons _ c _ b r => safe dyn x c && safe_block dyn x b && safe_ifs dyn x r
   end.
 
 Definition opost {A} (P : istate -> Prop) (r : outcome A) : Prop :=
@@ -56,6 +59,7 @@ Definition opost {A} (P : istate -> Prop) (r : outcome A) : Prop :=
 
 Section Frame.
 Variable x : str.
+Variable dyn : str -> bool.
 
 Definition keeps (st st' : istate) : Prop := lookup x (vars st') = lookup x (vars st).
 Definition K {A} (st : istate) (r : outcome A) : Prop := opost (keeps st) r.
@@ -106,9 +110,15 @@ Proof. unfold get_variable. destruct (is_builtin n); cbn; auto. destruct (lookup
 Section Step.
 Variable files : files_t.
 Variable ev : evalT.
-Hypothesis Hev : forall n st, safe x n = true -> K st (ev n st).
+Hypothesis Hev : forall n st, safe dyn x n = true -> K st (ev n st).
+(* every build file a subdir() call can enter is itself safe (vacuous when dyn excludes subdir) *)
+Definition files_safe : Prop :=
+  forall path code b, lookup path files = Some code -> parse code = Ok b -> safe_block dyn x b = true.
+Hypothesis Hdyn : forall name, dyn name = false ->
+  f_eq name "set_variable" = false /\ f_eq name "unset_variable" = false /\
+  (f_eq name "subdir" = true -> files_safe).
 
-Lemma K_eval_pos a st : safe_args x a = true -> K st (eval_pos ev a st).
+Lemma K_eval_pos a st : safe_args dyn x a = true -> K st (eval_pos ev a st).
 Proof.
   revert st; induction a as [|n r IH|k c v r IH]; intros st H; cbn in *.
   - apply keeps_refl.
@@ -118,7 +128,7 @@ Proof.
   - apply Bool.andb_true_iff in H. destruct H as [_ H]. apply IH. exact H.
 Qed.
 
-Lemma K_eval_kw dict a acc st : safe_args x a = true -> K st (eval_kw ev dict a acc st).
+Lemma K_eval_kw dict a acc st : safe_args dyn x a = true -> K st (eval_kw ev dict a acc st).
 Proof.
   revert acc st; induction a as [|n r IH|k c v r IH]; intros acc st H; cbn in *.
   - apply keeps_refl.
@@ -142,7 +152,7 @@ Proof.
   destruct (has_key _ d); [apply keeps_refl|]. destruct (merge_expand _ _); apply keeps_refl.
 Qed.
 
-Lemma K_reduce dict a st : safe_args x a = true -> K st (reduce_arguments ev dict a st).
+Lemma K_reduce dict a st : safe_args dyn x a = true -> K st (reduce_arguments ev dict a st).
 Proof.
   intros H. unfold reduce_arguments. destruct (negb (args_order_ok a)); [apply keeps_refl|].
   cbv zeta. apply (K_from st (set_depth (S (depth st)) st)); [apply keeps_vars; reflexivity|].
@@ -155,7 +165,7 @@ Proof.
     apply K_bind; [apply K_expand|]. intros kw' st3 _. apply keeps_refl.
 Qed.
 
-Lemma K_eval_block b st : safe_block x b = true -> K st (eval_block ev b st).
+Lemma K_eval_block b st : safe_block dyn x b = true -> K st (eval_block ev b st).
 Proof.
   revert st; induction b as [|n e r IH]; intros st H; cbn in *; [apply keeps_refl|].
   apply Bool.andb_true_iff in H. destruct H as [H1 H2].
@@ -164,7 +174,7 @@ Proof.
 Qed.
 
 Lemma K_eval_ifs i els st :
-  safe_ifs x i = true -> match els with Some b => safe_block x b = true | None => True end ->
+  safe_ifs dyn x i = true -> match els with Some b => safe_block dyn x b = true | None => True end ->
   K st (eval_ifs ev i els st).
 Proof.
   revert st; induction i as [|kw c eol b r IH]; intros st H He; cbn in *.
@@ -187,7 +197,7 @@ Proof.
 Qed.
 
 Lemma K_foreach names b its st :
-  forallb (fun n => negb (str_eqb x n)) names = true -> safe_block x b = true ->
+  forallb (fun n => negb (str_eqb x n)) names = true -> safe_block dyn x b = true ->
   K st (foreach_loop ev names b its st).
 Proof.
   intros Hn Hb. revert st; induction its as [|it rest IH]; intros st; cbn; [apply keeps_refl|].
@@ -210,13 +220,32 @@ Proof.
   destruct (run_project _ _ _ _); cbn; try exact I; apply keeps_vars; reflexivity.
 Qed.
 
-Lemma K_call_function name raw kw st :
-  is_dyn name = false -> K st (call_function ev files name raw kw st).
+Lemma K_map_state {A} f st (r : outcome A) : (forall s, vars (f s) = vars s) -> K st r -> K st (map_state f r).
 Proof.
-  unfold is_dyn. intros H.
-  apply Bool.orb_false_iff in H. destruct H as [H H3].
-  apply Bool.orb_false_iff in H. destruct H as [H1 H2].
-  unfold call_function. rewrite H1, H2, H3.
+  intros Hf. destruct r; cbn; auto; unfold keeps; rewrite Hf; auto.
+Qed.
+
+(* subdir(): the file's statements run in this store; they keep x if the file is safe *)
+Lemma K_do_subdir d st : files_safe -> K st (do_subdir ev files d st).
+Proof.
+  intros Hfs. unfold do_subdir.
+  repeat match goal with
+  | |- K _ (if ?c then _ else _) => destruct c; try apply keeps_refl; try exact I
+  end.
+  cbv zeta.
+  destruct (lookup (build_file _) files) as [code|] eqn:El; [|apply keeps_vars; reflexivity].
+  destruct (parse code) as [b| |] eqn:Ep; try (apply keeps_vars; reflexivity); try exact I.
+  apply K_bind; [|intros; apply keeps_refl].
+  apply K_map_state; [reflexivity|].
+  match goal with |- K st (eval_block ev b ?s) => apply (K_from st s); [apply keeps_vars; reflexivity|] end.
+  apply K_eval_block. eapply Hfs; eassumption.
+Qed.
+
+Lemma K_call_function name raw kw st :
+  dyn name = false -> K st (call_function ev files name raw kw st).
+Proof.
+  intros H. destruct (Hdyn name H) as (H1 & H2 & H3).
+  unfold call_function. rewrite H1, H2.
   destruct (f_eq name "message").
   { destruct kw; [|apply keeps_refl]. apply K_lift. intros strs. apply keeps_vars. reflexivity. }
   destruct (f_eq name "error").
@@ -232,6 +261,9 @@ Proof.
       destruct (lookup s (vars st)); apply keeps_refl. }
   destruct (f_eq name "is_variable").
   { destruct kw; [|apply keeps_refl]. destruct (flatten_vals raw) as [|[] [|]]; apply keeps_refl. }
+  destruct (f_eq name "subdir").
+  { destruct kw; [|exact I]. destruct (flatten_vals raw) as [|[] [|]]; try apply keeps_refl.
+    apply K_do_subdir. apply H3. reflexivity. }
   destruct (f_eq name "subproject").
   { destruct kw; [|exact I]. destruct (flatten_vals raw) as [|[] [|]]; try apply keeps_refl. apply K_do_subproject. }
   destruct (f_eq name "project"); [apply keeps_refl|].
@@ -253,7 +285,7 @@ Ltac split_safe H :=
       apply Bool.andb_true_iff in H; destruct H as [H1 H2]; try split_safe H1; try split_safe H2
   end.
 
-Lemma K_step n st : safe x n = true -> K st (step files ev n st).
+Lemma K_step n st : safe dyn x n = true -> K st (step files ev n st).
 Proof.
   intros H. unfold step.
   eapply K_from; [apply (keeps_vars st (set_cur (npos n) st)); reflexivity|].
@@ -275,7 +307,7 @@ Proof.
     apply K_bind; [apply K_reduce; exact H2|]. intros [p k] st1 _.
     cbv zeta.
     match goal with |- K ?s (call_function _ _ _ _ _ ?s') => apply (K_from s s'); [apply keeps_vars; reflexivity|] end.
-    apply K_call_function. destruct (is_dyn (ttext name)); [discriminate H1|reflexivity].
+    apply K_call_function. destruct (dyn (ttext name)); [discriminate H1|reflexivity].
   - (* NMethod *)
     apply Bool.andb_true_iff in H. destruct H as [H1 H2].
     apply K_bind.
@@ -361,13 +393,78 @@ Proof.
 Qed.
 End Step.
 
-(* the frame theorem, for every fuel *)
-Theorem frame files fuel n st : safe x n = true -> K st (eval files fuel n st).
+End Frame.
+
+Lemma is_dyn_spec name : is_dyn name = false ->
+  f_eq name "set_variable" = false /\ f_eq name "unset_variable" = false /\ f_eq name "subdir" = false.
 Proof.
-  revert n st; induction fuel as [|f IH]; intros n st H; cbn [eval]; [exact I|].
-  apply K_step; [exact IH|exact H].
+  unfold is_dyn. intros H. apply Bool.orb_false_iff in H. destruct H as [H H3].
+  apply Bool.orb_false_iff in H. destruct H as [H1 H2]. auto.
 Qed.
 
-Theorem frame_block files fuel b st : safe_block x b = true -> K st (eval_block (eval files fuel) b st).
-Proof. intros H. apply K_eval_block; [intros; apply frame; assumption|exact H]. Qed.
-End Frame.
+(* the frame theorem, for every fuel: statements without set_variable / unset_variable / subdir *)
+Theorem frame x files fuel n st : safe is_dyn x n = true -> K x st (eval files fuel n st).
+Proof.
+  revert n st; induction fuel as [|f IH]; intros n st H; cbn [eval]; [exact I|].
+  apply (K_step x is_dyn files); [exact IH| |exact H].
+  intros name Hn. destruct (is_dyn_spec name Hn) as (A & B & C). repeat split; auto. intros E; congruence.
+Qed.
+
+Theorem frame_block x files fuel b st :
+  safe_block is_dyn x b = true -> K x st (eval_block (eval files fuel) b st).
+Proof. intros H. apply (K_eval_block x is_dyn); [intros; apply frame; assumption|exact H]. Qed.
+
+(* ... and through subdir(): when every build file of the project is safe for x (no assignment to
+   x, no set_variable / unset_variable), any statement that is safe in the same sense - subdir()
+   calls included, to any depth - leaves x unchanged *)
+Definition project_safe (x : str) (files : files_t) : Prop :=
+  forall path code b, lookup path files = Some code -> parse code = Ok b -> safe_block is_dyn2 x b = true.
+
+Theorem frame_project x files fuel n st :
+  project_safe x files -> safe is_dyn2 x n = true -> K x st (eval files fuel n st).
+Proof.
+  intros Hp. revert n st; induction fuel as [|f IH]; intros n st H; cbn [eval]; [exact I|].
+  apply (K_step x is_dyn2 files); [exact IH| |exact H].
+  intros name Hn. unfold is_dyn2 in Hn. apply Bool.orb_false_iff in Hn. destruct Hn as [A B].
+  repeat split; auto.
+Qed.
+
+(* the two builtins that take the variable name as a value write that name only *)
+Lemma set_variable_frame x ev files name v kw st :
+  str_eqb x name = false -> K x st (call_function ev files (s2l "set_variable") [VStr name; v] kw st).
+Proof.
+  intros H. unfold call_function. cbn [f_eq]. 
+  change (f_eq (s2l "set_variable") "message") with false.
+  change (f_eq (s2l "set_variable") "error") with false.
+  change (f_eq (s2l "set_variable") "assert") with false.
+  change (f_eq (s2l "set_variable") "range") with false.
+  change (f_eq (s2l "set_variable") "set_variable") with true.
+  cbv iota. destruct kw; [|apply keeps_refl].
+  destruct (is_ident name); [|apply keeps_refl].
+  apply K_bind; [apply K_set_variable; exact H|]. intros; apply keeps_refl.
+Qed.
+
+Lemma lookup_dict_del_other {A} x n (d : list (str * A)) : str_eqb x n = false -> lookup x (dict_del n d) = lookup x d.
+Proof.
+  intros H. induction d as [|[k w] r IH]; cbn; [reflexivity|].
+  destruct (str_eqb n k) eqn:E; cbn.
+  - apply str_eqb_eq in E. subst. rewrite H. reflexivity.
+  - destruct (str_eqb x k); [reflexivity|exact IH].
+Qed.
+
+Lemma unset_variable_frame x ev files name kw st :
+  str_eqb x name = false -> K x st (call_function ev files (s2l "unset_variable") [VStr name] kw st).
+Proof.
+  intros H. unfold call_function.
+  change (f_eq (s2l "unset_variable") "message") with false.
+  change (f_eq (s2l "unset_variable") "error") with false.
+  change (f_eq (s2l "unset_variable") "assert") with false.
+  change (f_eq (s2l "unset_variable") "range") with false.
+  change (f_eq (s2l "unset_variable") "set_variable") with false.
+  change (f_eq (s2l "unset_variable") "get_variable") with false.
+  change (f_eq (s2l "unset_variable") "is_variable") with false.
+  change (f_eq (s2l "unset_variable") "unset_variable") with true.
+  cbv iota. destruct kw; [|apply keeps_refl]. cbn [flatten_vals map flat1 concat app].
+  destruct (has_key name (vars st)); [|apply keeps_refl].
+  unfold K, opost, keeps. cbn. apply lookup_dict_del_other. exact H.
+Qed.
